@@ -1,4 +1,5 @@
 """C18 — backtrace: held back, then most recent N, in order, once (DESIGN §4 C18)."""
+import re
 from qlib import (AnalysisBroken, strip, isnode, walk, is_call, norm_cmp, var_ref, is_null, const_val, short, call_obj,
                   expr_key, field_name, is_this_field, atomic_op)
 from rules.common import (core_and_neg, tnode, other, cpos, npos, branches_on_call, in_subtree, need_some, straight_after)
@@ -39,6 +40,7 @@ def run(ctx):
         r2(ctx, facts, cfg)
         r3(ctx, facts, cfg)
         r4(ctx, facts, cfg)
+        r4_buffer_is_not_a_c_string(ctx, facts, cfg)
 
 
 def r1(ctx, facts, cfg):
@@ -382,3 +384,43 @@ def r4(ctx, facts, cfg):
         ctx.ob("C18.R4c", site + ":flush-request", ok,
                "flush_backtrace submits a FlushBacktrace request and returns only once the queue accepted it (a dropping queue must not "
                "lose the request) (%s)" % ev, fn=f)
+
+
+CSTRING_FNS = r"^(std::)?(strtoul|strtoull|strtol|strtoll|atoi|atol|atoll|strtod|strlen|strchr|strrchr|strstr|strcmp|strncmp|sscanf|puts|fputs|printf|fprintf)$"
+
+
+def r4_buffer_is_not_a_c_string(ctx, facts, cfg):
+    """R4d: the formatted text of an event lives in a growing buffer that is reused from statement to statement and has no terminator:
+    the bytes behind size() belong to earlier statements. Wherever the backend takes its data() pointer, the consumer is told the length
+    as well (string / string_view from pointer and size, begin()/end(), an index below size()) — it is never handed to something that
+    reads up to a NUL (the backtrace capacity '2' followed by stale digits would be read as 2000...)."""
+    n = 0
+    bad = []
+    for f in facts.fns:
+        if f.config != cfg or f.rec.get("main") or not f.short.startswith(BW):
+            continue
+        for c in f.walk():
+            if not (c["k"] == "CXXMemberCallExpr" and re.search(r"(basic_memory_buffer|buffer)<char.*>::data$", c.get("callee") or "")):
+                continue
+            obj = call_obj(c)
+            if not any(x["k"] == "MemberExpr" and x.get("mname") == "formatted_msg" for x in walk(obj)) and \
+                    not any(x["k"] == "DeclRefExpr" and "formatted_msg" in (x.get("name") or "") for x in walk(obj)):
+                continue
+            n += 1
+            cons = None
+            for a in f.ancestors(c):
+                if a["k"] in ("CallExpr", "CXXMemberCallExpr", "CXXOperatorCallExpr", "CXXConstructExpr", "CXXTemporaryObjectExpr", "InitListExpr", "ArraySubscriptExpr", "BinaryOperator"):
+                    cons = a
+                    break
+            if cons is None:
+                bad.append("%s@%s (pointer kept without a length)" % (f.short.split("::")[-1], c["loc"].split(":", 1)[1]))
+                continue
+            if cons["k"] in ("ArraySubscriptExpr", "BinaryOperator"):
+                continue
+            args = [a for a in (cons.get("args") or cons.get("c") or []) if not (isnode(a) and a["k"] == "CXXDefaultArgExpr")]
+            if is_call(cons, CSTRING_FNS) or len(args) < 2:
+                bad.append("%s@%s -> %s" % (f.short.split("::")[-1], c["loc"].split(":", 1)[1], short(cons.get("callee") or cons["k"]).split("::")[-1]))
+    ctx.floor("C18.R4d", "uses of formatted_msg's data() in the backend", n, 4)
+    ctx.ob("C18.R4d", "BackendWorker:formatted-text-never-read-as-c-string", not bad,
+           "each of the %d places that take the data() pointer of an event's formatted text pass the length along (none reads up to a "
+           "terminator the buffer does not have): %s" % (n, "; ".join(bad) or "ok"))
